@@ -294,6 +294,48 @@ func TestVerifH8(t *testing.T) {
 			}
 		}
 	}
+	// one generator instance serves a whole history of allocations: every call honours ITS OWN request (nothing a previous
+	// call asked for may leak into a later one) and live allocations get distinct ports
+	for _, kind := range []string{"static", "none"} {
+		for _, first := range []int{0, 40101} {
+			base, _ := stdnet.NewNet()
+			fn := &h8Net{Net: base, used: map[int]bool{}}
+			var gen RelayAddressGenerator
+			if kind == "static" {
+				gen = &RelayAddressGeneratorStatic{RelayAddress: net.ParseIP("203.0.113.9"), Address: "127.0.0.1", Net: fn}
+			} else {
+				gen = &RelayAddressGeneratorNone{Address: "127.0.0.1", Net: fn}
+			}
+			seq := []int{first, 40102, 0, 40103, 0, 40104}
+			for _, tcp := range []bool{false, true} {
+				seen := map[int]bool{}
+				for i, req := range seq {
+					var port int
+					var err error
+					var a net.Addr
+					if tcp && req != 0 {
+						req += 500
+					}
+					if tcp {
+						_, a, err = gen.AllocateListener(AllocateListenerConfig{Network: "tcp4", RequestedPort: req})
+						if err == nil {
+							port = a.(*net.TCPAddr).Port //nolint:forcetypeassert
+						}
+					} else {
+						_, a, err = gen.AllocatePacketConn(AllocateListenerConfig{Network: "udp4", RequestedPort: req})
+						if err == nil {
+							port = a.(*net.UDPAddr).Port //nolint:forcetypeassert
+						}
+					}
+					if err != nil || (req != 0 && port != req) || seen[port] {
+						vt.Alarm("requested-port-not-honoured", "%s generator, call #%d of one instance (tcp=%v): requested %d, got %d err=%v (ports so far %v)", kind, i, tcp, req, port, err, seen)
+					}
+					seen[port] = true
+				}
+			}
+			vt.Stat("h8.sequence." + kind)
+		}
+	}
 	// real loopback sockets: two live allocations must never share a relay port
 	for _, network := range []string{"udp4", "tcp4"} {
 		base, _ := stdnet.NewNet()
